@@ -81,6 +81,7 @@ pub fn clock_of(sc: &Value) -> Option<ClockModel> {
         precision_override: c.get("precision").and_then(|p| p.as_u64()).map(|p| p as u128),
         overheads: ov.unwrap_or([0; 4]),
         quantum: u(c, "quantum", 0),
+        overhead_measure_cost: u(c, "overhead_measure_cost", 0),
     })
 }
 
